@@ -1,7 +1,8 @@
 SPECIFICATION TraceSpec
-CONSTANTS MaxT = 1 MaxS = 1 RewardVals = {0} Policies = {"munkres"}
+CONSTANTS MaxT = 1 MaxS = 1 RewardVals = {0} Policies = {"munkres"} VisBonus = 0
 INVARIANT Explained
 INVARIANT RelabelExplained
+INVARIANT ScaleExplained
 INVARIANT DecisionFeasible
 INVARIANT MunkresOptimal
 INVARIANT GreedyOptimal
